@@ -50,6 +50,14 @@ pub fn rx_empty_read(tier: Tier, depth: usize) -> Driver {
     d
 }
 
+/// A receive buffer smaller than one segment (9 bytes, segment size 10; the peer sends 5-byte packets).
+pub fn rx_sub_mss(tier: Tier, depth: usize) -> Driver {
+    let mut d = rx(tier, 1, vec![5], depth);
+    d.name = "rx-sub-mss".into();
+    d.cfg.rx_buf = MSS - 1;
+    d
+}
+
 /// Vectored reads: two buffers per call (either may be empty, the first may end inside a packet).
 pub fn rx_vectored(tier: Tier, depth: usize) -> Driver {
     let mut d = rx(tier, 4, vec![MSS, 3], depth);
@@ -825,6 +833,7 @@ pub fn all_drivers(tier: Tier) -> Vec<Driver> {
     v.push(rx_grown_mss(tier, 6));
     v.push(rx_empty_read(tier, 5));
     v.push(rx_vectored(tier, 5));
+    v.push(rx_sub_mss(tier, 5));
     v.push(rx_growing_mss(tier, 6));
     v.push(rx_reader_gone(tier, 6));
     v.push(rx_probe_then_fin(tier, 6));
